@@ -44,7 +44,7 @@ ASSUMPTIONS = [
     "run_ode/j_from_ode are trusted here (decided by C10)",
     "numba, numpy, scipy are trusted",
 ]
-FAULT_KINDS = ["x:nan_or_inf", "x:destabilising", "model:diverging",
+FAULT_KINDS = ["cancel_in_model_phase", "x:nan_or_inf", "x:destabilising", "model:diverging",
                "model:nan_after", "illegal:set_model_unsupported",
                "illegal:get_differentials_unsupported", "short_circuit_1e200"]
 PROBES = ["short_circuit_after_recorded_case", "model_eval_between_raw_evals",
@@ -52,7 +52,8 @@ PROBES = ["short_circuit_after_recorded_case", "model_eval_between_raw_evals",
           "get_differentials:0", "get_differentials:1", "get_differentials:many",
           "illegal_op_raised", "model_objective_cycle", "class:mean",
           "class:le", "supports_model:yes", "supports_model:no",
-          "model_is_truth_equal_values", "bundled_system"]
+          "model_is_truth_equal_values", "bundled_system",
+          "surrogate_solve"]
 HARD_CAP_S = 240.0
 CHUNK = 4
 BUNDLED_FAMILIES = ["linear", "quadratic", "cubic", "anns", "min_anns",
@@ -92,9 +93,13 @@ MODELS = ["lin:1", "lin:2", "lin:3", "div", "nan_after:0.5", "nan_after:0.0",
 def plan(tier: str) -> list:
     if tier == "quick":
         return [{"name": "history", "n": 2500, "max_ops": 25},
-                {"name": "bundled", "n": 24, "max_ops": 4, "bundled": True}]
+                {"name": "bundled", "n": 24, "max_ops": 4, "bundled": True},
+                {"name": "surrogate", "n": 32, "max_ops": 6,
+                 "surrogate": True}]
     return [{"name": "history", "n": 150000, "max_ops": 25},
-            {"name": "bundled", "n": 400, "max_ops": 5, "bundled": True}]
+            {"name": "bundled", "n": 400, "max_ops": 5, "bundled": True},
+            {"name": "surrogate", "n": 1200, "max_ops": 8,
+             "surrogate": True}]
 
 
 def warmup() -> None:
@@ -160,6 +165,45 @@ def generate(rng: random.Random, batch: dict) -> dict:
         sdcd = (system["sd"], system["cd"])
     cls = rng.choice(["mean", "le"])
     supports = rng.random() < 0.75
+    if batch.get("surrogate"):
+        # the surrogate optimizer drives the shared objective through
+        # warm-up, model training, a run on the model and back; a
+        # cancellation may hit while the objective is in model mode
+        supports = True
+        ops = []
+        for _ in range(rng.randint(1, batch["max_ops"])):
+            r = rng.random()
+            if r < 0.45:
+                x, how = gen_x(rng, dim)
+                ops.append({"op": "evaluate",
+                            "x": [fhex(v) if math.isfinite(v) else repr(v)
+                                  for v in x], "how": how})
+            elif r < 0.6:
+                ops.append({"op": "initialize"})
+            elif r < 0.7:
+                ops.append({"op": "get_differentials"})
+            else:
+                ops.append({"op": "surrogate_solve",
+                            "warmup": rng.choice([1, 2]),
+                            "train": rng.choice([3, 6]),
+                            "on_model": rng.choice([3, 5]),
+                            "max_fes": rng.choice([3, 4, 5]),
+                            "seed": rng.getrandbits(40),
+                            "terminate_at_model": rng.choice(
+                                [None, None, 1, 1, 2])})
+        if not any(o["op"] == "surrogate_solve" for o in ops):
+            ops.insert(rng.randrange(len(ops) + 1), {
+                "op": "surrogate_solve", "warmup": 1, "train": 3,
+                "on_model": 3, "max_fes": 4, "seed": rng.getrandbits(40),
+                "terminate_at_model": rng.choice([None, 1])})
+        ops.append({"op": "initialize"})
+        x, how = gen_x(rng, dim)
+        x = [v if math.isfinite(v) else 0.25 for v in x]
+        ops.append({"op": "evaluate", "x": [fhex(v) for v in x],
+                    "how": "small"})
+        ops.append({"op": "get_differentials"})
+        return {"system": system, "cls": cls, "supports_model": True,
+                "ops": ops}
     n_ops = rng.randint(1, batch["max_ops"])
     ops = []
     pool = []
@@ -695,6 +739,71 @@ def _execute(doc: dict) -> dict:
                         f"nothing was recorded since initialize()")
                     break
             res["events"].append(["get_differentials", bool(got is not None)])
+        elif kind == "surrogate_solve":
+            from moptipy.api.execution import Execution
+            from moptipyapps.dynamic_control.surrogate_optimizer import (
+                SurrogateOptimizer)
+            from moptipyapps.dynamic_control.system_model import SystemModel
+            mctrl = Controller("simmodel", sd + cd, sd, (sd + cd) * sd,
+                               _njit_funcs()["model_ctrl"])
+            sm = SystemModel(inst.system, inst.controller, mctrl)
+            space = inst.controller.parameter_space()
+            algo = SurrogateOptimizer(
+                sm, space, obj, int(op["warmup"]), int(op["train"]), None,
+                int(op["on_model"]), None, False)
+            hook = {"n": 0, "proc": None, "fired": False}
+            from moptipy.api.algorithm import Algorithm
+
+            class Spy(Algorithm):
+                def initialize(self):
+                    algo.initialize()
+
+                def solve(self, process):
+                    hook["proc"] = process
+                    algo.solve(process)
+
+                def __str__(self):
+                    return str(algo)
+
+                def log_parameters_to(self, logger):
+                    algo.log_parameters_to(logger)
+            exe = Execution().set_objective(obj).set_solution_space(space) \
+                .set_algorithm(Spy()).set_max_fes(int(op["max_fes"])) \
+                .set_rand_seed(int(op["seed"]))
+            # cancellation at an arbitrary instant: the k-th switch of the
+            # objective into model mode also terminates the outer process
+            orig_set_model = obj.set_model
+            k_term = op.get("terminate_at_model")
+
+            def hooked_set_model(eq, _o=orig_set_model):
+                _o(eq)
+                hook["n"] += 1
+                if k_term is not None and hook["n"] == int(k_term) \
+                        and hook["proc"] is not None:
+                    hook["proc"].terminate()
+                    hook["fired"] = True
+            obj.set_model = hooked_set_model
+            try:
+                with exe.execute() as proc0:
+                    pass
+            except Exception:  # noqa: BLE001
+                pass
+            # (instance attribute removed again: back to the class method)
+            del obj.set_model
+            res["events"].append(["surrogate_solve", hook["n"],
+                                  hook["fired"]])
+            core.bump(res["probes"], "surrogate_solve")
+            if hook["fired"]:
+                core.bump(res["faults"], "cancel_in_model_phase")
+            # whatever happened inside: the optimizer must hand the
+            # objective back in real-system mode with a working initialize();
+            # the data it recorded is adopted as the new ledger
+            mode, model_id = "raw", None
+            try:
+                gsc, gdf = obj.get_differentials()
+                ledger[:] = [(np.array(gsc), np.array(gdf))]
+            except ValueError:
+                ledger.clear()
         elif kind == "model_objective":
             if supports and sum(len(b[0]) for b in ledger) > 0:
                 q = np.array([unhex(v) for v in op["q"]], dtype=float)
